@@ -68,11 +68,15 @@ package hook
 //@        hm.hooksInOrder[bindingType][a].Config.OnStartup.Order < hm.hooksInOrder[bindingType][b].Config.OnStartup.Order
 //@        || (hm.hooksInOrder[bindingType][a].Config.OnStartup.Order == hm.hooksInOrder[bindingType][b].Config.OnStartup.Order && hm.hooksInOrder[bindingType][a].Name < hm.hooksInOrder[bindingType][b].Name)))
 //@   ensures [other-order]   result1 == nil && bindingType != htypes.OnStartup ==> sameseq(hm.hooksInOrder[bindingType], old(hm.hooksInOrder[bindingType]))
-//@   callsite sort.Slice
+// Assumed effect of sort.SliceStable with the comparator GetHooksInOrder$1 (proved above to compare
+// by onStartup order): a permutation pi, sorted by order, elements of equal order keep their
+// relative position. (sort.Slice would promise nothing about equal elements.)
+//@   callsite sort.SliceStable
 //@     modifies elems(hooks)
 //@     witness pi map[int]int
 //@     ensures forall(a, 0, len(hooks), 0 <= pi[a] && pi[a] < len(hooks) && hooks[a] == old(hooks[pi[a]]))
 //@     ensures forall(a, 0, len(hooks), forall(b, 0, len(hooks), a < b ==> hooks[a].Config.OnStartup.Order <= hooks[b].Config.OnStartup.Order))
+//@     ensures forall(a, 0, len(hooks), forall(b, 0, len(hooks), a < b && hooks[a].Config.OnStartup.Order == hooks[b].Config.OnStartup.Order ==> pi[a] < pi[b]))
 //@   loop 1
 //@     invariant 0 <= iter() && iter() <= len(hooks) && forall(a, 0, iter(), hooks[a].Config.OnStartup != nil)
 //@   loop 2
